@@ -88,7 +88,7 @@ func skipPathSep(s string, i int, comma bool) int {
 // interpretPath implements the SVG 1.1 path grammar; ok=false where the data is malformed (the valid prefix
 // is returned, as a renderer would draw it).
 func interpretPath(d string) (segs []pathSeg, ok bool) {
-	var x, y, sx, sy float64 // current point, subpath start
+	var x, y, sx, sy float64   // current point, subpath start
 	var lastC, lastQ []float64 // last control point of the previous C/S resp. Q/T segment, nil otherwise
 	i := skipPathSep(d, 0, false)
 	first := true
